@@ -175,6 +175,7 @@ const HOSTS: &[(&str, &str, &str)] = &[
     ("(?=)[xy]□", "(?=)[xy]", ""),
     ("□[xy](?=)", "", "[xy](?=)"),
     ("(?<=□)x", "(?<=", ")x"),
+    ("(?i:x)□(?!y)", "(?i:x)", "(?!y)"),
 ];
 
 /// where the literal host would match: same search written with str::find
@@ -207,6 +208,15 @@ fn host_expected(host: &str, s: &str, text: &str) -> Option<(usize, usize)> {
             };
             i.map(|i| (i, i + 1 + s.len()))
         }
+        "(?i:x)□(?!y)" => {
+            // leftmost x or X directly followed by s (case-sensitively) and not by y after it
+            for (i, c) in text.char_indices() {
+                if (c == 'x' || c == 'X') && text[i + 1..].starts_with(s) && !text[i + 1 + s.len()..].starts_with('y') {
+                    return Some((i, i + 1 + s.len()));
+                }
+            }
+            None
+        }
         "(?<=□)x" => {
             let lit = format!("{}x", s);
             text.find(&lit).map(|i| (i + s.len(), i + s.len() + 1))
@@ -230,7 +240,16 @@ pub fn run_c17(cx: &Ctx) -> i32 {
     let mut alphabet = meta.clone();
     alphabet.extend(['a', '0', ' ', '\t', 'é', '€', '😀', '-', '&', '~']);
     let max_len = if cx.quick() { 3 } else { 5 };
-    let strings = space::texts(&alphabet, max_len);
+    let mut strings = space::texts(&alphabet, max_len);
+    // long strings: an ASCII stretch of every length up to 70, a multi-byte character, then special
+    // characters (block-wise scanning or copying inside escape)
+    for k in 0..=70usize {
+        for mb in ["é", "€", "😀"] {
+            for tail in ["", ".", "a.", "(*", "é$"] {
+                strings.push(format!("{}{}{}", "a".repeat(k), mb, tail));
+            }
+        }
+    }
     let total = strings.len();
     let tallies = par::run_workers(64, |_w, claimer| {
         engine::quiet_panics();
@@ -264,6 +283,15 @@ pub fn run_c17(cx: &Ctx) -> i32 {
             for x in ["", "a", "\\", "x", "é"] {
                 for y in ["", "a", "$", "y", "x"] {
                     texts.push(format!("{}{}{}", x, s, y));
+                }
+            }
+            // the string in the other case (an escaped string is matched case-sensitively whatever
+            // stands next to it)
+            let swapped: String = s.chars().map(|c| if c.is_lowercase() { c.to_uppercase().next().unwrap_or(c) } else { c.to_lowercase().next().unwrap_or(c) }).collect();
+            if swapped != *s {
+                for x in ["", "x", "X"] {
+                    texts.push(format!("{}{}", x, swapped));
+                    texts.push(format!("{}{} {}{}", x, swapped, x, s));
                 }
             }
             let cs: Vec<char> = s.chars().collect();
@@ -314,7 +342,7 @@ pub fn run_c17(cx: &Ctx) -> i32 {
         t,
         Finish {
             rule: format!(
-                "all {} strings of length <= {} over the 15 regex meta-characters plus [a,0,space,tab,e-acute,euro,emoji,-,&,~]; each escaped string alone and embedded in the hosts {:?}; texts: s, s doubled, x+s+y for x in ['',a,\\,x,e-acute] and y in ['',a,$,y], s with one character dropped (bare and inside x..y); oracle: Regex::new(escape(s)) compiles, find span == str::find span of the literal the host spells, Cow::Borrowed iff s has no special character; non-trivial = found occurrences of strings that needed escaping",
+                "all {} strings: every string of length <= {} over the 15 regex meta-characters plus [a,0,space,tab,e-acute,euro,emoji,-,&,~], and 1 065 long strings (an ASCII stretch of every length 0..70, a multi-byte character, special characters); each escaped string alone and embedded in the hosts {:?}; texts: s, s doubled, x+s+y for x in ['',a,\\,x,e-acute] and y in ['',a,$,y], s with one character dropped (bare and inside x..y); oracle: Regex::new(escape(s)) compiles, find span == str::find span of the literal the host spells, Cow::Borrowed iff s has no special character; non-trivial = found occurrences of strings that needed escaping",
                 total, max_len, HOSTS.iter().map(|h| h.0).collect::<Vec<_>>()
             ),
             exhaustive: true,
